@@ -235,6 +235,8 @@ Definition run_acc (line : list N) : list N :=
       else if str_eqb f $"expr" then match dec_expr a with Some e => r_ok (print_bytes (pr_expr e)) | None => r_badcase end
       else r_badcase
   | [f; a; b] =>
+      (* loadx <src> <intended verdict>: the verdict is for the oracle only *)
+      if str_eqb f $"loadx" then match parse_bytes a with Some s => run_load s | None => r_badcase end else
       if str_eqb f $"large" then match a, parse_nat b with [sh], Some n => run_large sh n | _, _ => r_badcase end else
       (* parsex <src> <expected tree>: the expectation is for the oracle only *)
       if str_eqb f $"parsex" then match parse_bytes a with Some s => print_outcome enc_script (parse s) | None => r_badcase end
